@@ -48,7 +48,7 @@ class InvalidFuzzyData(MPilotError):
     def __init__(self, path, lineno=None):
         # type: (str, int) -> None
 
-        super(InvalidPositiveData, self).__init__(lineno)
+        super(InvalidFuzzyData, self).__init__(lineno)
 
         self.path = path
 
